@@ -44,6 +44,7 @@ KMODES = ("int", "frac", "float", "sym", "named")
 VKINDS = ("int", "frac", "float", "sym")
 PAIRS_QUICK = [("int", "int"), ("frac", "frac"), ("float", "float"), ("named", "int"), ("sym", "sym"), ("int", "sym"), ("sym", "int"), ("named", "sym")]
 PAIRS_ALL = [(k, v) for k in KMODES for v in VKINDS]
+PAIRS_THOROUGH = PAIRS_QUICK + [("named", "frac"), ("float", "sym")]
 PAIRS9 = [(r, p) for r in range(3) for p in range(3)]
 
 # pool of representative reactions: (reac, prod, inact_reac, inact_prod)
@@ -68,8 +69,6 @@ POOL4 = POOL3 + [
     M.rt_make({"A": 1, "D": 1}, {"B": 1, "C": 1}),
     M.rt_make({"C": 1}, {"D": 2}, ir={"D": 1}),
     M.rt_make({"B": 1, "D": 2}, {"D": 3}),
-    M.rt_make({"C": 2}, {"D": 1}, ip={"A": 1}),
-    M.rt_make({"D": 1}, {"B": 1}, ir={"A": 1}, ip={"C": 1}),
 ]
 
 
@@ -78,13 +77,13 @@ def bounds(tier):
         return dict(substances="ABC", coeffs=[0, 1, 2], inactive_coeffs=[0, 1], inactive_on="at most one substance", kmodes=list(KMODES), vkinds=list(VKINDS),
                     pool=len(POOL3), max_list_len=3, system_pairs=["%s/%s" % p for p in PAIRS_QUICK], feed=["off", "all", "one"], substance_specs=["None", "sorted", "unsorted"])
     return dict(substances="ABCD", coeffs=[0, 1, 2], inactive_coeffs=[0, 1, 2], inactive_on="at most one substance", kmodes=list(KMODES), vkinds=list(VKINDS),
-                pool=len(POOL4), max_list_len=4, system_pairs=["%s/%s" % p for p in PAIRS_ALL], feed=["off", "all", "one"], substance_specs=["None", "sorted", "unsorted"])
+                pool=len(POOL4), max_list_len=4, system_pairs=["%s/%s" % p for p in PAIRS_THOROUGH], feed=["off", "all", "one"], substance_specs=["None", "sorted", "unsorted"])
 
 
 def _tier(tier):
     if tier == "quick":
         return dict(S="ABC", inact=[(1, 0), (0, 1), (1, 1)], pool=POOL3, L=3, pairs=PAIRS_QUICK)
-    return dict(S="ABCD", inact=[(a, b) for a in range(3) for b in range(3) if (a, b) != (0, 0)], pool=POOL4, L=4, pairs=PAIRS_ALL)
+    return dict(S="ABCD", inact=[(a, b) for a in range(3) for b in range(3) if (a, b) != (0, 0)], pool=POOL4, L=4, pairs=PAIRS_THOROUGH)
 
 
 def chunks(tier):
